@@ -1,4 +1,6 @@
 import Gallia.Proofs.Lemmas.DoipOps
+import Gallia.Proofs.Lemmas.DoipSysCalls
+import Gallia.Proofs.Lemmas.DoipSysAlive
 import Gallia.Gen.C06Doip
 /-
   C06 — DoIP: frames are demultiplexed correctly under any segmentation and interleaving.
@@ -63,6 +65,15 @@ theorem unknown_types_dropped (v : UInt8) (pt : Nat) (pl : Bytes) (h : pt ∉ Ge
   obtain ⟨h0, h1, h2, h3, h4, h5⟩ := h'
   simp [classify, ptHdrNack, ptRaRes, ptAliveReq, ptDiag, ptAckPos, ptAckNeg, h0, h1, h2, h3, h4, h5]
 
+/-- every `asyncio.Queue` of doip.py is unbounded.  The model relies on it twice: the reader task's `await put()`
+    never suspends (`DoipSys.settle` parses every complete frame whatever the queue holds, hence
+    `doip_alive_always_answered`), and the `put_nowait` re-queue of skipped frames never raises (`requeueFront` is
+    total, hence `doip_reads_account_for_every_frame`).  What a capacity does: `bounded_queue_starves_alive_check`. -/
+theorem queues_unbounded :
+    Gen.C06Doip.queueCaps =
+      [("DoIPConnection.self._diagnostic_message_queue", 0), ("DoIPConnection.self._read_queue", 0)] := by
+  decide
+
 /-! ### connection set-up -/
 
 /-- the routing activation request: version, inverse version, payload type 0x0005, length 7, the configured
@@ -101,7 +112,7 @@ theorem usable_iff_success (c : Cfg) (atype : UInt8) (tmo : Nat) (arr : List (Na
   cases hs : findSplit isRar (visible (min tmo raTimeoutMs) (timeline {} arr)) with
   | none =>
     constructor
-    · intro h; by_cases ht : tmo < raTimeoutMs <;> simp [connRes, ht] at h
+    · intro h; by_cases ht : tmo ≤ raTimeoutMs <;> simp [connRes, ht] at h
     · rintro ⟨pre, s, t, post, e, hpre⟩
       rw [e, findSplit_complete isRar pre post _ rfl hpre] at hs; cases hs
   | some r =>
@@ -330,13 +341,14 @@ theorem tail_requeue_order_iff (p r : Frame → Bool) (q pre post : List Frame) 
 
 /-! ### write -/
 
-/-- `DoIPTransport.write` (caller timeout not below the acknowledgement time) completes iff the first frame that
+/-- `DoIPTransport.write` (caller timeout above the acknowledgement time; at a tie the caller's timer, armed first,
+    wins: `write_caller_timeout`) completes iff the first frame that
     passes the acknowledgement test - among what is queued and what arrives within the acknowledgement time - is a
     positive acknowledgement or a `TargetUnreachable` negative one; otherwise it fails with a connection error
     (`DoIPNegativeAckError` is a `BrokenPipeError`) no later than the acknowledgement time, and when no
     acknowledgement shows up at all the connection is closed exactly at that time -/
 theorem write_completes_iff_acked (c : Cfg) (s : St) (data : Bytes) (tmo : Nat) (arr : List (Nat × Bytes))
-    (hc : s.closed = false) (hd : NoDeath (timeline s arr)) (htmo : ackTimeoutMs ≤ tmo) :
+    (hc : s.closed = false) (hd : NoDeath (timeline s arr)) (htmo : ackTimeoutMs < tmo) :
     ((opWrite c s data tmo arr).1 = .ok ↔
       ∃ pre f post, s.queue ++ visible (s.now + ackTimeoutMs) (timeline s arr) = pre ++ f :: post ∧
         (∀ y ∈ pre, ackMatch c data y = false) ∧ ackMatch c data f = true ∧ accepted f = true) ∧
@@ -346,9 +358,9 @@ theorem write_completes_iff_acked (c : Cfg) (s : St) (data : Bytes) (tmo : Nat) 
     ((∀ y ∈ s.queue ++ visible (s.now + ackTimeoutMs) (timeline s arr), ackMatch c data y = false) →
       (opWrite c s data tmo arr).1 = .conn ∧ (opWrite c s data tmo arr).2.2.closed = true) := by
   obtain ⟨h1, h2, h3, _⟩ := opWrite_spec c s data tmo arr hc hd
-  have hm : min tmo ackTimeoutMs = ackTimeoutMs := Nat.min_eq_right htmo
+  have hm : min tmo ackTimeoutMs = ackTimeoutMs := Nat.min_eq_right (Nat.le_of_lt htmo)
   rw [hm] at h1 h2 h3
-  have hnt : ¬ tmo < ackTimeoutMs := by omega
+  have hnt : ¬ tmo ≤ ackTimeoutMs := by omega
   unfold waitRef at h1 h3
   cases hs : findSplit (ackMatch c data) (s.queue ++ visible (s.now + ackTimeoutMs) (timeline s arr)) with
   | none =>
@@ -382,15 +394,15 @@ theorem write_completes_iff_acked (c : Cfg) (s : St) (data : Bytes) (tmo : Nat) 
       have := hall f (by rw [e1]; simp)
       rw [e2] at this; cases this
 
-/-- a write given up by the caller's own (shorter) timeout: reported as a timeout, the connection stays open and
+/-- a write given up by the caller's own timeout (not above the acknowledgement time): reported as a timeout, the connection stays open and
     every frame skipped meanwhile is still queued, in arrival order -/
 theorem write_caller_timeout (c : Cfg) (s : St) (data : Bytes) (tmo : Nat) (arr : List (Nat × Bytes))
-    (hc : s.closed = false) (hd : NoDeath (timeline s arr)) (ht : tmo < ackTimeoutMs)
+    (hc : s.closed = false) (hd : NoDeath (timeline s arr)) (ht : tmo ≤ ackTimeoutMs)
     (hall : ∀ y ∈ s.queue ++ visible (s.now + tmo) (timeline s arr), ackMatch c data y = false) :
     (opWrite c s data tmo arr).1 = .timeout ∧ (opWrite c s data tmo arr).2.2.closed = false ∧
     (opWrite c s data tmo arr).2.2.queue = s.queue ++ allFrames (timeline s arr) := by
   obtain ⟨h1, _, h3, h4⟩ := opWrite_spec c s data tmo arr hc hd
-  have hm : min tmo ackTimeoutMs = tmo := Nat.min_eq_left (Nat.le_of_lt ht)
+  have hm : min tmo ackTimeoutMs = tmo := Nat.min_eq_left ht
   rw [hm] at h1 h3 h4
   have hw : waitRef (ackMatch c data) (s.queue ++ visible (s.now + tmo) (timeline s arr)) = .timeout := by
     unfold waitRef; rw [(findSplit_none_iff _ _).mpr hall]
@@ -456,6 +468,316 @@ theorem alive_answered_idle (c : Cfg) (s : St) (arr : List (Nat × Bytes)) (hc :
 theorem alive_response_bytes (c : Cfg) :
     aliveResp c = [c.ver, c.ver ^^^ 0xFF, 0x00, 0x08, 0x00, 0x00, 0x00, 0x02] ++ toBE c.src 2 := by
   simp [aliveResp, header, ptAliveRes, toBE]
+
+/-! ### whole executions of one connection (`Model/DoipSys.lean`)
+
+  An execution is an arbitrary list of events `ops : List Op` - bytes arriving in any segmentation, client calls
+  (write / read / routing activation, each with the caller's timeout), `close`, end of stream, time passing - run
+  from a fresh established connection `{}`; `yields` is an arbitrary schedule of reader task and blocked consumer.
+  `fedBytes ops` is the whole byte stream the gateway sent; `pendItems [] (fedBytes ops)` what a reader makes of it
+  when it arrives in one piece.  Every statement below holds for every `ops` and every `yields`. -/
+
+section WholeExecutions
+open Gallia.DoipSys
+
+/-- **reads account for every diagnostic message.**  The payloads handed out by reads so far, followed by the
+    payloads of the configured pair still on their way - held by the blocked consumer (frames skipped by a read, an
+    acknowledgement wait or a routing activation wait included), queued, or complete in the receive buffer of a
+    connection that was closed meanwhile - are exactly the payloads of the diagnostic messages from the configured
+    target to the configured source in the byte stream, in stream order: nothing is lost, duplicated, invented or
+    reordered, however the stream is cut, whatever else is interleaved, however the waits end (accepted, timer,
+    connection closed).  While the connection is open nothing is left in the buffer: every complete frame has been
+    parsed. -/
+theorem doip_reads_account_for_every_frame (c : Cfg) (yields : Raw → Bool) (ops : List Op) :
+    delivered (exec c yields {} ops).done ++
+        diags c (avail (exec c yields {} ops) ++ pendQ (exec c yields {} ops) []) =
+      diags c (qAll (pendItems [] (fedBytes ops))) ∧
+    ((exec c yields {} ops).closed = false →
+      delivered (exec c yields {} ops).done ++ diags c (avail (exec c yields {} ops)) =
+        diags c (qAll (pendItems [] (fedBytes ops)))) := by
+  have h := (exec_conserved c yields (acct_conserved c) ops {} (WF_idle c _ rfl)).2 []
+  have h1 : delivered (exec c yields {} ops).done ++
+      diags c (avail (exec c yields {} ops) ++ pendQ (exec c yields {} ops) []) =
+      diags c (qAll (pendItems [] (fedBytes ops))) := by
+    simpa [acct, avail, held, pendQ] using h
+  refine ⟨h1, fun ho => ?_⟩
+  have hq := (exec_inv c yields ops {} (Inv_init c)).quiet ho
+  rw [← h1]
+  simp [pendQ, pendItems_none hq]
+
+/-- hence reads deliver, in order and each at most once, a prefix of the diagnostic messages of the stream -/
+theorem doip_reads_in_arrival_order (c : Cfg) (yields : Raw → Bool) (ops : List Op) :
+    delivered (exec c yields {} ops).done <+: diags c (qAll (pendItems [] (fedBytes ops))) :=
+  ⟨_, (doip_reads_account_for_every_frame c yields ops).1⟩
+
+/-- **write outcomes.**  At any point of any execution (`ops0`) with the client idle and the connection open, a write
+    starts; `ops` is any continuation during which the reader task survives (reader death: `doip_closed_never_blocks`).
+    `seen` = the frames queued when the request goes out, followed by those the byte stream delivers strictly before
+    the write's deadline `d` (2 s acknowledgement time, or the caller's earlier timeout).  Then
+
+    * the request `header ++ source ++ target ++ data` is written at the instant the write starts;
+    * if `seen` holds a frame passing the acknowledgement test (configured address pair, echoed data empty or a
+      prefix of the request), the write ends with the *first* such frame, at the instant that frame is queued:
+      it completes iff the frame is a positive acknowledgement or a `TargetUnreachable` negative one, otherwise
+      it is refused with that negative acknowledgement's code (a `BrokenPipeError`);
+    * if not, and time has reached `d`: the write ends *exactly at* `d` - with the caller's `TimeoutError` when `d` is
+      the caller's timeout, with a connection error and the connection closed (for good) when `d` is the
+      acknowledgement time.  An acknowledgement arriving at `d` or later is too late for it;
+    * if not, and time has not reached `d`: the write is still blocked, holding every frame seen, in order.  -/
+theorem doip_write_outcomes (c : Cfg) (yields : Raw → Bool) (ops0 : List Op) (data : Bytes) (tmo : Option Nat)
+    (ops : List Op) (hidle : (exec c yields {} ops0).client = .idle) (hopen : (exec c yields {} ops0).closed = false)
+    (htmo : tmo ≠ some 0) (hsafe : rsafe (exec c yields {} ops0).buf ops)
+    (s : Sys) (hs : s = exec c yields {} ops0) (e : Option (Nat × Bool))
+    (he : e = expiry (some (s.now + ackTimeoutMs)) (tmo.map (s.now + ·)))
+    (seen : List (Nat × Frame))
+    (hseen : seen = s.queue.map (fun f => (s.now, f)) ++ (rlog s.buf s.now ops).filter (fun x => notDue e x.1))
+    (S : Sys) (hS : S = exec c yields {} (ops0 ++ .write data tmo :: ops)) :
+    (∃ more, S.out = s.out ++ (s.now, diagReq c data) :: more) ∧
+    (∀ t f, seen.find? (fun x => ackMatch c data x.2) = some (t, f) →
+      ∃ more, S.done = s.done ++ ⟨t, .ack data, (Want.ack data).result f⟩ :: more) ∧
+    (seen.find? (fun x => ackMatch c data x.2) = none → ∀ d byCaller, e = some (d, byCaller) → d ≤ rnow s.now ops →
+      (∃ more, S.done = s.done ++ ⟨d, .ack data, if byCaller then .timeout else .conn⟩ :: more) ∧
+      (byCaller = false → S.closed = true)) ∧
+    (seen.find? (fun x => ackMatch c data x.2) = none → notDue e (rnow s.now ops) = true →
+      S.client = .waiting (.ack data) (s.queue ++ (rlog s.buf s.now ops).map (·.2)) (some (s.now + ackTimeoutMs))
+        (tmo.map (s.now + ·)) ∧ S.done = s.done ∧ S.closed = false) := by
+  subst hs he hseen
+  have hinv := exec_inv c yields ops0 {} (Inv_init c)
+  have hS' : S = exec c yields (startCall c (exec c yields {} ops0) (.ack data) (some (diagReq c data)) tmo) ops := by
+    rw [hS, exec_append, exec_cons]; rfl
+  obtain ⟨a, b, d⟩ := call_run c yields _ hinv hidle hopen (.ack data) (some (diagReq c data)) tmo htmo ops hsafe
+  rw [hS']
+  exact ⟨call_out c yields _ hinv hidle hopen (.ack data) _ tmo ops, a, b, d⟩
+
+/-- which acknowledgements let a write complete: the result of a write that accepted `f` is success iff `f` is a
+    positive acknowledgement or a `TargetUnreachable` negative one, and a refusal carrying the code otherwise -/
+theorem doip_write_result (c : Cfg) (data : Bytes) (f : Frame) (h : ackMatch c data f = true) :
+    ((Want.ack data).result f = .ok ↔ accepted f = true) ∧
+    (accepted f = false → ∃ code, (Want.ack data).result f = .nack code) := by
+  cases f with
+  | ackPos s t p => simp [Want.result, accepted]
+  | ackNeg s t code p => by_cases hc : code = nackTargetUnreachable <;> simp [Want.result, accepted, hc]
+  | hdrNack _ => simp [ackMatch] at h
+  | rar _ _ _ => simp [ackMatch] at h
+  | diag _ _ _ => simp [ackMatch] at h
+
+/-- **no acknowledgement serves two writes.**  The number of writes that ended by accepting an acknowledgement
+    (completed or refused) plus the number of acknowledgements of the configured pair still on their way equals the
+    number of such acknowledgements in the byte stream: each one is used at most once, none is invented -/
+theorem doip_acks_used_once (c : Cfg) (yields : Raw → Bool) (ops : List Op) :
+    acksUsed (exec c yields {} ops).done +
+        (avail (exec c yields {} ops) ++ pendQ (exec c yields {} ops) []).countP (isAckFor c) =
+      (qAll (pendItems [] (fedBytes ops))).countP (isAckFor c) := by
+  have h := (exec_conserved c yields (ackBal_conserved c) ops {} (WF_idle c _ rfl)).2 []
+  simpa [ackBal, avail, held, pendQ, acksUsed] using h
+
+/-- the same machinery for reads: `seen` as above with the read's own timeout (no protocol timer); the read returns
+    the user data of the first diagnostic message of the configured pair in `seen`, at the instant it is queued;
+    otherwise it ends with the caller's `TimeoutError` exactly at its deadline and the connection stays open; a read
+    without timeout stays blocked -/
+theorem doip_read_outcomes (c : Cfg) (yields : Raw → Bool) (ops0 : List Op) (tmo : Option Nat)
+    (ops : List Op) (hidle : (exec c yields {} ops0).client = .idle) (hopen : (exec c yields {} ops0).closed = false)
+    (htmo : tmo ≠ some 0) (hsafe : rsafe (exec c yields {} ops0).buf ops)
+    (s : Sys) (hs : s = exec c yields {} ops0) (e : Option (Nat × Bool))
+    (he : e = expiry none (tmo.map (s.now + ·)))
+    (seen : List (Nat × Frame))
+    (hseen : seen = s.queue.map (fun f => (s.now, f)) ++ (rlog s.buf s.now ops).filter (fun x => notDue e x.1))
+    (S : Sys) (hS : S = exec c yields {} (ops0 ++ .read tmo :: ops)) :
+    (∀ t f, seen.find? (fun x => isDiagFor c x.2) = some (t, f) →
+      ∃ more, S.done = s.done ++ ⟨t, .diag, .msg f.userData⟩ :: more) ∧
+    (seen.find? (fun x => isDiagFor c x.2) = none → ∀ d, tmo.map (s.now + ·) = some d → d ≤ rnow s.now ops →
+      ∃ more, S.done = s.done ++ ⟨d, .diag, .timeout⟩ :: more) ∧
+    (seen.find? (fun x => isDiagFor c x.2) = none → notDue e (rnow s.now ops) = true →
+      S.client = .waiting .diag (s.queue ++ (rlog s.buf s.now ops).map (·.2)) none (tmo.map (s.now + ·)) ∧
+      S.done = s.done ∧ S.closed = false) := by
+  subst hs he hseen
+  have hinv := exec_inv c yields ops0 {} (Inv_init c)
+  have hS' : S = exec c yields (startCall c (exec c yields {} ops0) .diag none tmo) ops := by
+    rw [hS, exec_append, exec_cons]; rfl
+  obtain ⟨a, b, d⟩ := call_run c yields _ hinv hidle hopen .diag none tmo htmo ops hsafe
+  rw [hS']
+  refine ⟨a, fun hn dd hd hle => ?_, d⟩
+  have hex : expiry ((Want.diag).limit.map ((exec c yields {} ops0).now + ·))
+      (tmo.map ((exec c yields {} ops0).now + ·)) = some (dd, true) := by
+    cases tmo with
+    | none => simp at hd
+    | some t => simp only [Option.map_some, Option.some.injEq] at hd; simp [Want.limit, expiry, hd]
+  exact (b hn dd true hex hle).1
+
+/-- **every alive check is answered, whatever the client is doing.**  For every execution:
+    * the alive-check responses written plus the alive-check requests complete in the buffer of a connection closed
+      meanwhile are the alive-check requests of the byte stream - on an open connection: one response per request
+      completely received, however the stream was cut;
+    * the reader task has handled exactly the frames of the stream, in order (`rxItems`), every alive-check request is
+      followed by its response before the next frame is handled (`answered`), and the responses written are those;
+    * nothing of this looks at the client: not at its phase (idle, awaiting an acknowledgement, blocked in a read) and
+      not at the connection mutex the last two hold (`Sys.mutexHeld`) - the statement is for all `ops` -/
+theorem doip_alive_always_answered (c : Cfg) (yields : Raw → Bool) (ops : List Op) :
+    (replies c (exec c yields {} ops).out).length + aliveReqs (pendItems (exec c yields {} ops).buf []) =
+      aliveReqs (pendItems [] (fedBytes ops)) ∧
+    ((exec c yields {} ops).closed = false →
+      (replies c (exec c yields {} ops).out).length = aliveReqs (pendItems [] (fedBytes ops))) ∧
+    rxItems (exec c yields {} ops).tr ++ pendItems (exec c yields {} ops).buf [] = pendItems [] (fedBytes ops) ∧
+    answered (exec c yields {} ops).tr = true ∧
+    (replies c (exec c yields {} ops).out).length = trReplies (exec c yields {} ops).tr := by
+  have h1 := (exec_conserved c yields (aliveBal_conserved c) ops {} (WF_idle c _ rfl)).2 []
+  have h1' : (replies c (exec c yields {} ops).out).length + aliveReqs (pendItems (exec c yields {} ops).buf []) =
+      aliveReqs (pendItems [] (fedBytes ops)) := by
+    simpa [aliveBal, replies] using h1
+  have h2 := (exec_conserved c yields (rxAll_conserved c) ops {} (WF_idle c _ rfl)).2 []
+  refine ⟨h1', fun ho => ?_, by simpa [rxAll, rxItems] using h2,
+    exec_stable c yields (answered_stable c) ops {} (WF_idle c _ rfl) rfl,
+    exec_stable c yields (replies_stable c) ops {} (WF_idle c _ rfl) rfl⟩
+  have hq := (exec_inv c yields ops {} (Inv_init c)).quiet ho
+  rw [← h1', pendItems_none hq]; simp [aliveReqs]
+
+/-- **... at the instant the request is complete.**  Along any execution that leaves the connection open, the
+    alive-check responses written are - one each, in order - stamped with the instants at which the requests became
+    complete (`alog`: determined by the byte stream and the clock alone): zero virtual time between the last byte of a
+    request and its response - in particular within the alive-check time (`aliveCheckMs`, 500 ms) - whether the client
+    is idle, awaiting an acknowledgement or blocked in a read -/
+theorem doip_alive_reply_times (c : Cfg) (yields : Raw → Bool) (ops : List Op)
+    (hopen : (exec c yields {} ops).closed = false) :
+    replies c (exec c yields {} ops).out = (alog [] 0 ops).map (fun t => (t, aliveResp c)) := by
+  have := exec_reply_times c yields ops {} (Inv_init c) hopen
+  simpa [replies] using this
+
+/-- the reader's reply to one alive-check request does not depend on the client state at all: replacing it (another
+    phase, mutex held or not) changes nothing in what the reader writes for that frame -/
+theorem doip_alive_reply_ignores_client (c : Cfg) (s : Sys) (raw : Raw) (cl : Client) :
+    (deliver c { s with client := cl } raw).out = (deliver c s raw).out ∧
+    (classify raw = .alive → (deliver c s raw).out = s.out ++ [(s.now, aliveResp c)]) := by
+  refine ⟨by simp [deliver_out], fun h => by simp [deliver_out, h]⟩
+
+/-- **foreign frames.**  Frames no call ever accepts (diagnostic messages and acknowledgements of other address
+    pairs, generic header negative acknowledgements) are never consumed: those still on their way are exactly the
+    ones in the byte stream, in stream order - on an open connection all of them are queued or held for later reads.
+    They never reach a read (`doip_reads_in_arrival_order`: what reads return are payloads of messages of the
+    configured pair), and frames of unknown payload type are dropped without breaking the stream: the frames behind
+    them are handled as usual (`doip_alive_always_answered`, third clause, with `unknown_types_dropped`) -/
+theorem doip_foreign_preserved (c : Cfg) (yields : Raw → Bool) (ops : List Op) :
+    (avail (exec c yields {} ops) ++ pendQ (exec c yields {} ops) []).filter (foreign c) =
+      (qAll (pendItems [] (fedBytes ops))).filter (foreign c) ∧
+    ((exec c yields {} ops).closed = false →
+      (avail (exec c yields {} ops)).filter (foreign c) = (qAll (pendItems [] (fedBytes ops))).filter (foreign c)) := by
+  have h := (exec_conserved c yields (foreign_conserved c) ops {} (WF_idle c _ rfl)).2 []
+  have h1 : (avail (exec c yields {} ops) ++ pendQ (exec c yields {} ops) []).filter (foreign c) =
+      (qAll (pendItems [] (fedBytes ops))).filter (foreign c) := by
+    simpa [foreignOf, avail, held, pendQ] using h
+  refine ⟨h1, fun ho => ?_⟩
+  have hq := (exec_inv c yields ops {} (Inv_init c)).quiet ho
+  rw [← h1]
+  simp [pendQ, pendItems_none hq]
+
+/-- **a closed connection never has a blocked call.**  In every state of every execution: when the connection is
+    closed (client `close()`, acknowledgement timer, end of stream, a frame the reader task cannot unpack) no call is
+    pending - a call blocked at that moment has been woken and has ended at that very instant (C08: `doip_death_wakes`);
+    an open connection has parsed every complete frame; a blocked call has drained the queue -/
+theorem doip_closed_never_blocks (c : Cfg) (yields : Raw → Bool) (ops : List Op) :
+    ((exec c yields {} ops).closed = true → (exec c yields {} ops).client = .idle) ∧
+    ((exec c yields {} ops).closed = false → cut (exec c yields {} ops).buf = none) ∧
+    (∀ w sk p cl, (exec c yields {} ops).client = .waiting w sk p cl → (exec c yields {} ops).queue = []) := by
+  have h := exec_inv c yields ops {} (Inv_init c)
+  exact ⟨h.idleIfClosed, h.quiet, h.drained⟩
+
+/-- **closed is final and fails fast.**  Once an execution has closed the connection, whatever follows (`more`):
+    it stays closed, no call ever blocks, nothing is read from the stream, written to it or taken from the queue any
+    more, and every later call ends at the instant it starts with a connection error -/
+theorem doip_closed_fails_fast (c : Cfg) (yields : Raw → Bool) (ops more : List Op)
+    (hc : (exec c yields {} ops).closed = true) :
+    (exec c yields {} (ops ++ more)).closed = true ∧ (exec c yields {} (ops ++ more)).client = .idle ∧
+    (exec c yields {} (ops ++ more)).out = (exec c yields {} ops).out ∧
+    (exec c yields {} (ops ++ more)).queue = (exec c yields {} ops).queue ∧
+    (exec c yields {} (ops ++ more)).tr = (exec c yields {} ops).tr ∧
+    ∃ fails, (exec c yields {} (ops ++ more)).done = (exec c yields {} ops).done ++ fails ∧
+      fails.map (·.w) = callsOf more ∧ ∀ e ∈ fails, e.res = .conn := by
+  have hi := (exec_inv c yields ops {} (Inv_init c)).idleIfClosed hc
+  rw [exec_append]
+  obtain ⟨a1, a2, a3, a4, a5, _, m⟩ := closed_run c yields more _ hi hc
+  exact ⟨a1, a2, a3, a4, a5, m⟩
+
+/-- **reader death closes.**  A frame the reader task cannot unpack (wrong inverse version, payload shorter than its
+    fixed fields, ...) that becomes complete on an open connection, or the end of the stream, closes the connection
+    within the same event - so by `doip_closed_never_blocks` a call blocked at that moment ends at that instant, and
+    by `doip_closed_fails_fast` every later call fails fast -/
+theorem doip_reader_death_closes (c : Cfg) (yields : Raw → Bool) (ops : List Op) (chunk : Bytes)
+    (hf : Item.fatal ∈ pendItems (exec c yields {} ops).buf chunk) :
+    (exec c yields {} (ops ++ [.feed chunk])).closed = true ∧ (exec c yields {} (ops ++ [.eof])).closed = true := by
+  constructor
+  · rw [exec_append]
+    cases ho : (exec c yields {} ops).closed with
+    | true =>
+      exact exec_closed c yields _ _ (exec_inv c yields ops {} (Inv_init c)) ho
+    | false =>
+      show (settle c yields { (exec c yields {} ops) with buf := (exec c yields {} ops).buf ++ chunk }).closed = true
+      exact settle_fatal c yields _ ho (by simpa [pendItems] using hf)
+  · rw [exec_append]
+    show (execOp c yields (exec c yields {} ops) .eof).closed = true
+    simp only [execOp]
+    split
+    · assumption
+    · rw [clientRun_closed]
+
+/-- what the model (and the code, see the correspondence) does with an acknowledgement that arrives after the caller
+    gave up: a write with a 500 ms timeout ends with `TimeoutError` at 500 ms and leaves the connection open; its
+    acknowledgement arrives at 800 ms and stays queued; the next write finds it first and completes at once - an
+    acknowledgement carries nothing that ties it to one request except the optional echo.  An echo that is not a prefix
+    of the new request is refused (second part). -/
+theorem doip_stale_ack_serves_next_write :
+    (exec ⟨0x0E00, 0x1D, 2⟩ (asyncioYields true) {}
+      [.write [0x22, 0xF1, 0x90] (some 500), .advance 500, .advance 300,
+       .feed (encFrame 2 (.ackPos 0x1D 0x0E00 [])), .advance 20, .write [0x3E, 0x00] none]).done =
+      [⟨500, .ack [0x22, 0xF1, 0x90], .timeout⟩, ⟨820, .ack [0x3E, 0x00], .ok⟩] ∧
+    (exec ⟨0x0E00, 0x1D, 2⟩ (asyncioYields true) {}
+      [.write [0x22, 0xF1, 0x90] (some 500), .advance 500, .advance 300,
+       .feed (encFrame 2 (.ackPos 0x1D 0x0E00 [0x22, 0xF1, 0x90])), .advance 20, .write [0x3E, 0x00] none,
+       .advance 2000]).done =
+      [⟨500, .ack [0x22, 0xF1, 0x90], .timeout⟩, ⟨2820, .ack [0x3E, 0x00], .conn⟩] := by
+  decide +kernel
+
+/-- non-vacuity of `doip_write_outcomes` / `doip_read_outcomes` and the shape of a whole execution: request at 0, an
+    alive check, a foreign diagnostic message, the acknowledgement and the response arrive in two segments cut inside
+    a header; the write completes at 340, the alive check is answered at 300 while the write holds the mutex, the
+    read returns the response, the foreign frame stays queued; the continuation is safe for the reader -/
+example :
+    let c : Cfg := ⟨0x0E00, 0x1D, 2⟩
+    let stream := header 2 ptAliveReq 0 ++ encFrame 2 (.diag 0x1E 0x0E00 [0x7F]) ++ encFrame 2 (.ackPos 0x1D 0x0E00 []) ++
+      encFrame 2 (.diag 0x1D 0x0E00 [0x62, 0xF1])
+    let ops : List Op := [.advance 300, .feed (stream.take 11), .advance 40, .feed (stream.drop 11), .read (some 200)]
+    let S := exec c (asyncioYields true) {} (.write [0x22, 0xF1] none :: ops)
+    S.done = [⟨340, .ack [0x22, 0xF1], .ok⟩, ⟨340, .diag, .msg [0x62, 0xF1]⟩] ∧
+      S.queue = [.diag 0x1E 0x0E00 [0x7F]] ∧ S.out.map (·.1) = [0, 300] ∧ S.tr.length = 5 ∧
+      rsafe [] ops ∧ (exec c (asyncioYields true) {} []).client = .idle ∧ S.closed = false ∧
+      alog [] 0 (.write [0x22, 0xF1] none :: ops) = [300] := by
+  decide +kernel
+
+/-- an acknowledgement that arrives after the 2 s deadline: the write has ended at 2000 with a connection error, the
+    connection is closed, the late acknowledgement is not even parsed, the next write fails at once -/
+example :
+    let c : Cfg := ⟨0x0E00, 0x1D, 2⟩
+    let S := exec c (asyncioYields true) {}
+      [.write [0x22, 0xF1] none, .advance 2001, .feed (encFrame 2 (.ackPos 0x1D 0x0E00 [])), .advance 9,
+       .write [0x3E, 0x00] none]
+    S.done = [⟨2000, .ack [0x22, 0xF1], .conn⟩, ⟨2010, .ack [0x3E, 0x00], .conn⟩] ∧ S.closed = true ∧
+      S.queue = [] ∧ S.out.length = 1 := by
+  decide +kernel
+
+/-- why `queues_unbounded` is an obligation: with a read queue of capacity 2, three foreign diagnostic messages
+    followed by an alive-check request, arriving while the client is idle, leave the reader task suspended in `put()`
+    with the alive check unread and unanswered; the unbounded queue of the code answers it at once.  And a write that
+    skipped three frames before its acknowledgement puts three frames back: more than such a queue could take
+    (`put_nowait` would raise `QueueFull`). -/
+theorem bounded_queue_starves_alive_check :
+    let c : Cfg := ⟨0x0E00, 0x1D, 2⟩
+    let burst := encFrame 2 (.diag 0x1E 0x0E00 [1]) ++ encFrame 2 (.diag 0x1E 0x0E00 [2]) ++
+      encFrame 2 (.diag 0x1E 0x0E00 [3])
+    (settleBounded 2 c (asyncioYields true) { buf := burst ++ header 2 ptAliveReq 0 }).out = [] ∧
+    (settle c (asyncioYields true) { buf := burst ++ header 2 ptAliveReq 0 }).out = [(0, aliveResp c)] ∧
+    (exec c (asyncioYields true) {} [.write [0x3E, 0x00] none, .feed (burst ++ encFrame 2 (.ackPos 0x1D 0x0E00 []))]).queue.length
+      = 3 := by
+  decide +kernel
+
+end WholeExecutions
 
 /-! ### non-vacuity -/
 
